@@ -36,6 +36,7 @@ def must_see(tier):
         m[impl + ':cursor-leaf-split'] = 20
         m[impl + ':cursor-entry-deleted'] = 20
         m[impl + ':cursor-leaf-tail-deleted'] = 20
+        m[impl + ':unstarted-cursor-leaf-emptied'] = 20
         m[impl + ':iterator-outlived-clear'] = 10
         m[impl + ':outcome:StopIteration'] = 20
         m[impl + ':outcome:entry'] = 1000
@@ -71,9 +72,21 @@ class Cursor:
         self.last = None      # last yielded key (to aim mutations)
         self.dead = False
         self.pos = 0
+        self.start = None     # lower bound of its range, if any
 
 
 def make_cursor(c, rng, is_mapping, is_tree, present):
+    cur = _make_cursor(c, rng, is_mapping, is_tree, present)
+    a_ = _LASTARGS[0]
+    cur.start = a_[0] if a_ else None
+    cur.fresh = '[' not in cur.what       # (slicing already asked for len)
+    return cur
+
+
+_LASTARGS = [()]
+
+
+def _make_cursor(c, rng, is_mapping, is_tree, present):
     r = rng.random()
     args = ()
     if present and rng.random() < .35:
@@ -85,6 +98,18 @@ def make_cursor(c, rng, is_mapping, is_tree, present):
             args = (a, b) if rng.random() < .6 else (a,)
         except (TypeError, IndexError):
             args = ()
+    if rng.random() < .4:
+        # every spelling of the four range arguments, open ends included:
+        # an exclusive open end is resolved against whatever the first /
+        # last leaf holds when the cursor gets there
+        mn = args[0] if args else None
+        mx = args[1] if len(args) > 1 else None
+        if rng.random() < .5:
+            mx = None
+        if rng.random() < .3:
+            mn = None
+        args = (mn, mx, rng.random() < .5, rng.random() < .6)
+    _LASTARGS[0] = args
     if r < 0.45:
         if is_mapping:
             m = rng.choice(['iter', 'iterkeys', 'itervalues', 'iteritems'])
@@ -261,7 +286,34 @@ def run_history(fam, kind, impl, rng, rec, h):
             # (the walk re-activated every node: sweep again so that the
             # mutation itself meets ghosts)
             conn.cache.minimize()
-        if cur is not None and cur.last is not None and rng.random() < 0.6:
+        if cur is not None and cur.last is None and \
+                getattr(cur, 'fresh', False) and w is not None and \
+                w.leaf_keys and rng.random() < 0.5:
+            # a cursor that has NOT BEEN USED yet: the leaf its range
+            # starts in (or the last leaf of the tree) is emptied before
+            # the first step resolves the range
+            leaf = None
+            for lk in w.leaf_keys:
+                try:
+                    if cur.start is None or not klt(lk[-1], cur.start):
+                        leaf = lk
+                        break
+                except TypeError:
+                    break
+            if leaf is None or rng.random() < .4:
+                leaf = w.leaf_keys[-1]
+            aim = 'unstarted-cursor-leaf-emptied'
+            cur.fresh = False
+            ok = True
+            for kk in list(leaf):
+                ok = ok and ls.step('delitem' if is_mapping else 'remove',
+                                    (kk,))
+            rec.ev('%s:%s' % (impl, aim))
+            last_aim = aim
+            log.append(('mutate', aim))
+            if not ok:
+                return
+        elif cur is not None and cur.last is not None and rng.random() < 0.6:
             k = cur.last
             leaf = None
             if w is not None:
